@@ -110,5 +110,43 @@ theorem step_ok (hd : 0 < c.depth) (init : List Byte) (s : SramState) (p : Optio
           rw [ofList_writeLanes _ _ _ _ _ (by rw [hlen]; exact word_in_store c hd r.adr), hmem]
           exact Mem.writeMasked_idem _ _ _ _
 
+/-- A read/write SRAM implements a byte memory (interface form of `step_ok`). -/
+theorem refines (hd : 0 < c.depth) (hrw : c.readOnly = false) (init : List Byte) :
+    Refines (sram c init) c.idx c.nb (NoBurst c) (Inv c) := by
+  intro s p M i hinv hhold hP
+  have h := step_ok c hd init s p M i hinv hhold hP
+  have hk : keep c = fun _ => true := by funext op; simp [keep, hrw]
+  rw [hk] at h
+  exact h
+
+/-- `bits_for(2^n - 1) = n` for `n ≥ 1`. -/
+theorem bitsFor_pow2 (n : Nat) (hn : 0 < n) : bitsFor (2 ^ n - 1) = n := by
+  have h1 : 2 ^ n - 1 ≠ 0 := by
+    have : 2 ≤ 2 ^ n := by
+      calc 2 = 2 ^ 1 := rfl
+        _ ≤ 2 ^ n := Nat.pow_le_pow_right (by omega) hn
+    omega
+  simp only [bitsFor, h1, if_false]
+  have hlt : (2 ^ n - 1).log2 < n := (Nat.log2_lt h1).mpr (by have := Nat.two_pow_pos n; omega)
+  have hge : ¬ (2 ^ n - 1).log2 < n - 1 := by
+    rw [Nat.log2_lt h1]
+    have : 2 ^ n = 2 * 2 ^ (n - 1) := by
+      rw [← Nat.pow_succ']; congr 1; omega
+    have := Nat.two_pow_pos (n - 1)
+    omega
+  omega
+
+/-- For a power-of-two depth that the bus address can reach, the decoded word index is `adr mod depth`. -/
+theorem idx_pow2 (n : Nat) (hdepth : c.depth = 2 ^ n) (haw : n ≤ c.aw) (a : Nat) : c.idx a = a % c.depth := by
+  unfold SramCfg.idx SramCfg.abits
+  rw [hdepth]
+  cases n with
+  | zero =>
+    simp [bitsFor, Nat.mod_one]
+  | succ n =>
+    rw [bitsFor_pow2 _ (Nat.succ_pos n), Nat.min_eq_left haw]
+    have := Nat.mod_lt a (Nat.two_pow_pos (n + 1))
+    omega
+
 end Sram
 end Litex.WbMem
